@@ -38,7 +38,8 @@ RULE = ("(extends) dictionaries of 1-8 entries with random 'extends' pointers (c
         "pams' namespaces resolves to itself, generated user classes resolve once registered, unknown or doubly defined names "
         "are refused. (legacy) maxHifreqOrders / hifreqSubmitRate set the same Session attributes as their replacements; both "
         "spellings together are refused.")
-ASSUMPTIONS = ["uniform draws may hit the closed upper end by one float rounding (a <= x <= b is demanded, not x < b)",
+ASSUMPTIONS = ["termination is judged with a 5 s (json_extends) / 10 s (runner setup) watchdog per call; the calls take microseconds / milliseconds",
+               "uniform draws may hit the closed upper end by one float rounding (a <= x <= b is demanded, not x < b)",
                "group prefixes are generated distinct per group (equal prefixes legitimately collide and are refused by pams)"]
 
 KEYS = ["a", "b", "c", "from", "to", "numAgents", "prefix"]
@@ -276,7 +277,7 @@ def random_check(case):
         bad = [x for x in xs if not (a <= x <= b)]
         if bad:
             raise Violation("C18.random_support", f"{spec} produced {bad[0]!r} outside [{a}, {b}]")
-        if b > a:
+        if b - a > 1e-9 * max(1.0, abs(a), abs(b)):  # (a width of a few ulps / subnormals has no meaningful sample mean)
             mean = sum(xs) / N
             if abs(mean - (a + b) / 2) > 7 * (b - a) / math.sqrt(12 * N):
                 raise Violation("C18.random_distribution", f"{spec}: sample mean {mean!r} over {N} draws")
@@ -432,8 +433,11 @@ def legacy_check(case):
 
 
 PARTS = {
-    "extends": {"check": extends_check, "strategy": extends_cases, "budget": {"quick": 20000, "thorough": 600000}},
-    "expand": {"check": expand_check, "strategy": expand_cases, "budget": {"quick": 3000, "thorough": 90000}},
+    # "reports missing parents and cycles as errors instead of looping": a call that does not return within 5 s is looping
+    "extends": {"check": extends_check, "strategy": extends_cases, "budget": {"quick": 20000, "thorough": 600000},
+                "watchdog": (5, "C18.extends_terminates")},
+    "expand": {"check": expand_check, "strategy": expand_cases, "budget": {"quick": 3000, "thorough": 90000},
+               "watchdog": (10, "C18.expansion_terminates")},
     "random": {"check": random_check, "strategy": random_cases, "budget": {"quick": 5000, "thorough": 150000}},
     "classes": {"check": class_check, "strategy": class_cases, "budget": {"quick": 320, "thorough": 6000}},
     "legacy": {"check": legacy_check, "strategy": lambda tier: legacy_cases, "budget": {"quick": 2000, "thorough": 30000}},
